@@ -1,4 +1,7 @@
 mod c01;
+mod c03;
+mod c04;
+mod c05;
 mod cmp;
 mod obs;
 
@@ -11,6 +14,9 @@ fn main() {
     let which = args.get(1).map(|s| s.as_str()).unwrap_or("");
     let code = match which {
         "c01" => c01::run(tier),
+        "c03" => c03::run(tier),
+        "c04" => c04::run(tier),
+        "c05" => c05::run(tier),
         _ => {
             eprintln!("usage: vparse <c01|...> [--tier quick|thorough]");
             2
